@@ -108,6 +108,19 @@ def extract(state, seats, hero, tricky_names=False):
         elif k == 'ChipsPulling':
             rec['events'].append(dict(t='collect', p=o.player_index,
                                       amount=o.amount))
+    # the sites print the showdown after the last community card, also when
+    # the players tabled their hands before an all-in run-out (the engine
+    # logs those shows before the remaining board cards)
+    ev = rec['events']
+    last_board = max((i for i, e in enumerate(ev) if e['t'] == 'board'),
+                     default=None)
+    if last_board is not None and any(
+            e['t'] in ('show', 'muck') for e in ev[:last_board]):
+        shows = [e for e in ev[:last_board] if e['t'] in ('show', 'muck')]
+        head = [e for e in ev[:last_board + 1]
+                if e['t'] not in ('show', 'muck')]
+        rec['events'] = head + shows + ev[last_board + 1:]
+        rec['showdown_moved_after_runout'] = True
     return rec
 
 
